@@ -186,6 +186,36 @@ fn render(case: &Value, idx: usize, seed: u64) -> String {
     format!("{PRELUDE}{head}(({body}! (process/exit) 0{close}) : OS)\n")
 }
 
+/// zyconf render-coverage CASES OUTDIR N: writes up to N rejected programs whose diagnostic lists SEVERAL missing
+/// patterns (C16: which ones are listed, and in which order, must not depend on the process), spread over the
+/// (type, number of missing patterns) classes of the enumeration.
+pub fn render_coverage(cases_path: &str, outdir: &str, n: usize) {
+    let cases = read_ndjson(std::path::Path::new(cases_path));
+    let seed = seed_from_env();
+    std::fs::create_dir_all(outdir).expect("mkdir");
+    let mut classes: std::collections::BTreeMap<(String, u64), Vec<usize>> = Default::default();
+    for (idx, c) in cases.iter().enumerate() {
+        let missing = c["nmissing"].as_u64().unwrap_or(0);
+        if c["exhaustive"] == false && missing >= 2 {
+            classes.entry((s(c, "ty"), missing)).or_default().push(idx);
+        }
+    }
+    let mut written = 0;
+    let mut round = 0;
+    while written < n && classes.values().any(|v| v.len() > round) {
+        for v in classes.values() {
+            if written < n && v.len() > round {
+                // spread inside a class deterministically by the seed
+                let idx = v[(round * 7919 + seed as usize) % v.len()];
+                std::fs::write(format!("{outdir}/cov{written:03}.zy"), render(&cases[idx], idx, seed)).expect("write");
+                written += 1;
+            }
+        }
+        round += 1;
+    }
+    println!("render-coverage: {written} programs from {} classes", classes.len());
+}
+
 /// zyconf replay-coverage CASES SUMMARY TRACE
 pub fn replay_coverage(cases_path: &str, out_path: &str, trace_path: &str) {
     let cases = read_ndjson(std::path::Path::new(cases_path));
